@@ -185,17 +185,25 @@ class SerializerBase(object):
             raise errors.SecurityError("refused to deserialize types with double underscores in their name: " + classname)
         # for performance reasons, the constructors below are hardcoded here
         # instead of added on a per-class basis to the dict-to-class registry
+        if classname in ("Pyro5.core.URI", "Pyro5.client.Proxy", "Pyro5.server.Daemon"):
+            state = data["state"]
+            if type(state) not in (list, tuple):
+                # the state is a sequence of plain values; never unpack, index or measure anything else here
+                # (nested class dicts have been turned into objects already, and a Proxy would go and call its daemon)
+                raise errors.SerializeError("invalid state in serialized class: " + classname)
         if classname == "Pyro5.core.URI":
             uri = core.URI.__new__(core.URI)
-            uri.__setstate__(data["state"])
+            uri.__setstate__(state)
             return uri
         elif classname == "Pyro5.client.Proxy":
+            if len(state) > 3 and any(type(member) not in (list, tuple, set, frozenset) for member in state[1:4]):
+                raise errors.SerializeError("invalid state in serialized class: " + classname)
             proxy = client.Proxy.__new__(client.Proxy)
-            proxy.__setstate__(data["state"])
+            proxy.__setstate__(state)
             return proxy
         elif classname == "Pyro5.server.Daemon":
             daemon = server.Daemon.__new__(server.Daemon)
-            daemon.__setstate__(data["state"])
+            daemon.__setstate__(state)
             return daemon
         elif classname.startswith("Pyro5.util."):
             if classname == "Pyro5.util.SerpentSerializer":
@@ -236,11 +244,16 @@ class SerializerBase(object):
 
     @staticmethod
     def make_exception(exceptiontype, data):
-        ex = exceptiontype(*data["args"])
-        if "attributes" in data:
-            # restore custom attributes on the exception object
-            for attr, value in data["attributes"].items():
-                setattr(ex, attr, value)
+        args = data["args"]
+        attributes = data.get("attributes", {})
+        if type(args) not in (list, tuple) or type(attributes) is not dict:
+            # these are a plain sequence and a plain dict; never iterate over anything else here
+            # (nested class dicts have been turned into objects already, and a Proxy would go and call its daemon)
+            raise errors.SerializeError("invalid args or attributes in serialized exception")
+        ex = exceptiontype(*args)
+        # restore custom attributes on the exception object
+        for attr, value in attributes.items():
+            setattr(ex, attr, value)
         return ex
 
     def recreate_classes(self, literal):
